@@ -141,6 +141,24 @@ Proof.
   exists []. split; [done|]. intros b Hb. by apply elem_of_nil in Hb.
 Qed.
 
+(* no task with a non-empty request becomes (or stays, changed) Allocated: such a task of s' is the same object in s *)
+Definition alloc_kept (s s' : sess) : Prop :=
+  forall i t', heap s' !! i = Some t' -> t_status t' = Allocated -> t_best_effort t' = false -> heap s !! i = Some t'.
+Lemma alloc_kept_refl s : alloc_kept s s. Proof. by intros i t' E _ _. Qed.
+Lemma alloc_kept_trans a b c : alloc_kept a b -> alloc_kept b c -> alloc_kept a c.
+Proof. intros H1 H2 i t' E Hs Hb. apply H1; [|done|done]. by apply H2. Qed.
+Lemma touched_alloc_kept s s' i p p' : touched s s' i p p' -> t_best_effort p = true -> alloc_kept s s'.
+Proof.
+  intros [H1 H2 (_ & _ & _ & Hbe) _ _ _] Hp k t' E Hs Hb. rewrite H2 in E.
+  apply lookup_insert_Some in E as [[<- <-]|[_ E]]; [congruence|done].
+Qed.
+Lemma bound_batch_alloc_kept s s' B : bound_batch s s' B -> alloc_kept s s'.
+Proof.
+  intros Hbb i t' E Hs Hb. destruct (heap s !! i) as [t|] eqn:Et.
+  - destruct (bb_heap _ _ _ Hbb i t Et) as (t'' & E'' & _ & [->|[Hbi _]]); rewrite E in E''; injection E'' as <-; [done|congruence].
+  - rewrite (bb_dom _ _ _ Hbb i Et) in E. done.
+Qed.
+
 Lemma revert_spec s2 p2 : gang_inv s2 -> heap s2 !! t_id p2 = Some p2 ->
   exists p', touched s2 (let '(_, sr, pr) := ssn_update_status s2 p2 Pending in put_task sr (set_node pr None)) (t_id p2) p2 p' /\
     (t_status p' = Pending \/ t_status p' = t_status p2) /\
@@ -167,14 +185,14 @@ Qed.
 Lemma backfill_spec s tid nid p :
   gang_inv s -> refuse_bind s = ∅ -> heap s !! tid = Some p -> t_status p = Pending -> t_best_effort p = true ->
   exists s' r, ssn_place_with eps (fun s j => gang_job_ready (heap s) j) s KAllocate tid nid = (s', r) /\
-    step_out s s' /\ stmts s' = stmts s.
+    step_out s s' /\ stmts s' = stmts s /\ alloc_kept s s'.
 Proof.
   intros Hinv Href Hp Hpend Hbe.
   assert (Hid : t_id p = tid) by (destruct Hinv as (Ha & _); by apply Ha).
   unfold ssn_place_with. rewrite Hp. rewrite <- Hid in Hp.
   destruct (touched_update s p Allocated Hinv Hp) as (found & s1 & p1 & E & Hf & Hst & Ht1 & Hs1 & Hb1).
   rewrite E. destruct found; simpl negb; cbv iota.
-  2:{ exists s, RErr. split; [done|]. split; [by apply step_out_refl|done]. }
+  2:{ exists s, RErr. split; [done|]. split; [by apply step_out_refl|]. split; [done|apply alloc_kept_refl]. }
   pose proof (tc_meta _ _ _ _ _ Ht1) as (Hid1 & Hjob1 & _ & Hbe1).
   set (p2 := set_node p1 (Some nid)).
   set (s2 := put_task s1 p2).
@@ -193,12 +211,12 @@ Proof.
   (* the revert branch *)
   assert (Hrevert : forall r0 : result, exists (s' : sess) (r : result),
      ((let '(_, sr, pr) := ssn_update_status s2 p2 Pending in put_task sr (set_node pr None)), r0) = (s', r) /\
-     step_out s s' /\ stmts s' = stmts s).
+     step_out s s' /\ stmts s' = stmts s /\ alloc_kept s s').
   { intros r0. destruct (revert_spec s2 p2 (tc_inv _ _ _ _ _ Ht2) Hp2) as (p' & Ht' & Hst' & Hb' & Hs').
     eexists _, r0. split; [reflexivity|]. rewrite Hid2 in Ht'.
     pose proof (touched_trans _ _ _ _ _ _ _ Ht2 Ht') as Ht.
     pose proof (tc_meta _ _ _ _ _ Ht) as (_ & _ & _ & Hbe').
-    split; [|rewrite Hs'; simpl; done].
+    split; [|split; [rewrite Hs'; simpl; done|eapply touched_alloc_kept; [exact Ht|done]]].
     apply step_out_quiet.
     - exact (tc_inv _ _ _ _ _ Ht).
     - exact (tc_refuse _ _ _ _ _ Ht).
@@ -234,6 +252,7 @@ Proof.
   pose proof (tc_inv _ _ _ _ _ Ht4) as Hinv4.
   assert (Hquiet : step_out s s4).
   { apply step_out_quiet; [done|exact (tc_refuse _ _ _ _ _ Ht4)|done|done]. }
+  assert (Hak4 : alloc_kept s s4) by (eapply touched_alloc_kept; [exact Ht4|done]).
   destruct (jobs s4 !! t_job p) as [j4|] eqn:Ej4; [|by exists s4, ROk].
   destruct (gang_job_ready (heap s4) j4) eqn:Eready; [|by exists s4, ROk].
   (* dispatch every Allocated task of the job *)
@@ -250,7 +269,7 @@ Proof.
   destruct (dispatch_all_spec s4 l s4 [] (bound_batch_refl s4 (conj Ha4 (conj Hb4' Hc4))) Href4 Hbindable)
     as (s5 & E5 & Hbb).
   rewrite E5. simpl in Hbb. exists s5, ROk. split; [done|].
-  split; [|rewrite (bb_stmts _ _ _ Hbb); done].
+  split; [|split; [rewrite (bb_stmts _ _ _ Hbb); done|eapply alloc_kept_trans; [exact Hak4|by eapply bound_batch_alloc_kept]]].
   destruct (jobs_static_some _ _ _ _ (bb_jobs _ _ _ Hbb) Ej4) as (j5 & Ej5 & Hs5).
   assert (Hok : gang_ok (heap s5) j5).
   { eapply ready_to_ok; [exact Hix4|exact Eready|exact Hs5|].
@@ -472,7 +491,7 @@ Proof.
     { apply Forall_rev. eapply Forall_impl; [exact (dp_ops _ _ _ _ Hdp)|]. by intros o [? _]. }
     pose proof (discard_fold eps s1 (rev ops) s1 [] (undone_batch_refl s1 (dp_inv _ _ _ _ Hdp)) Hops) as Hub.
     simpl in Hub. set (s' := fold_left (undo_op eps) (rev ops) s1) in *.
-    destruct Hub as [Uinv Ujobs Uref Ustmts Ubinds Uheap].
+    destruct Hub as [Uinv Ujobs Uref Ustmts Ubinds Uheap Udom].
     assert (Hinv2 : gang_inv (upd_stmts s' (<[sid := []]> (stmts s')))) by exact Uinv.
     split.
     - split; [done|]. split; [simpl; rewrite Uref, (dp_refuse _ _ _ _ Hdp); done|].
@@ -549,7 +568,7 @@ Proof.
   destruct (bool_decide (t_status p = Pending)) eqn:Epend; simpl negb; cbv iota; [|split; [done|by apply step_out_refl]].
   apply bool_decide_eq_true in Epend.
   destruct (t_best_effort p) eqn:Ebe; simpl negb; cbv iota; [|split; [done|by apply step_out_refl]].
-  destruct (backfill_spec (w_sess w) tid nid p Hinv Href Ep Epend Ebe) as (s' & r & E & Hout & Hs).
+  destruct (backfill_spec (w_sess w) tid nid p Hinv Href Ep Epend Ebe) as (s' & r & E & Hout & Hs & _).
   rewrite E. simpl. split; [|done]. destruct Hout as (H1 & H2 & _). unfold winv. simpl.
   split; [done|]. split; [congruence|].
   intros sid' Hle. rewrite Hs. by apply Hfresh.
